@@ -33,6 +33,14 @@ TEXTS = [
 ]
 
 
+# names the Python codec registry knows besides the text encodings of SMPP: codecs that are not text encodings at all
+# (bytes-to-bytes, str-to-str), text encodings without data_coding member, stateful and escape codecs.  The models do
+# not describe them; the session is judged by the predicate.
+PY_CODECS = ('hex', 'base64', 'zlib', 'bz2', 'quopri', 'uu', 'rot13', 'idna', 'punycode', 'unicode_escape',
+             'raw_unicode_escape', 'utf-16', 'utf-32', 'utf-7', 'utf-8-sig', 'cp1252', 'koi8_r', 'big5', 'undefined',
+             'iso8859_5', 'shift_jis', 'euc_kr')
+
+
 def gen_message(rng):
     from aiosmpplib.protocol import SubmitSm
     k = rng.randrange(10)
@@ -45,7 +53,8 @@ def gen_message(rng):
         return L.rand_sm(rng, 'SubmitSm'), 'sweep-wf'
     tag, text = rng.choice(TEXTS)
     kw = dict(short_message=text, auto_message_payload=rng.random() < 0.3, log_id='m%d' % rng.randrange(10 ** 6),
-              encoding=rng.choice((None, None, None, 'gsm0338', 'ucs2', 'ascii', 'latin_1', 'gsm0338_packed', 'utf-8', 'nosuch', '')),
+              encoding=rng.choice((None, None, None, 'gsm0338', 'ucs2', 'ascii', 'latin_1', 'gsm0338_packed', 'utf-8', 'nosuch', '',
+                                   rng.choice(PY_CODECS))),
               error_handling=rng.choice(('strict', 'strict', 'replace', 'ignore', 'bogus')),
               esm_class=rng.choice((0, 0, 0x40, 0x40, 0x43, 0xC0)))
     if rng.random() < 0.15:
@@ -87,6 +96,8 @@ def batch(msgs, default):
                 r0 = len(refs)
                 nconn = len(s.smsc.conns)
                 seq0 = s.esme.sequence_generator.sequence_num if hasattr(s.esme.sequence_generator, 'sequence_num') else None
+                # every queued message gets a log_id of its own, so that what send_error is handed can be identified
+                m.log_id = 'q%d' % len(obs)
                 line = L.show_msg(m)
                 own_sar = any(p.tag in (0x020C, 0x020E, 0x020F) for p in (m.optional_params or []))
                 s.enqueue(m)
@@ -106,7 +117,7 @@ def batch(msgs, default):
                 await asyncio.sleep(0.002)
                 follow_ok = any(p[4:8] == b'\x00\x00\x00\x04' for p in c2.pdus[m0:])
                 done = s.start_task.done()
-                obs.append(dict(line=line, own_sar=own_sar, written=written, errors=errors, follow_ok=follow_ok, ref=refs[r0] if len(refs) > r0 else 0,
+                obs.append(dict(line=line, log=m.log_id, own_sar=own_sar, written=written, errors=errors, follow_ok=follow_ok, ref=refs[r0] if len(refs) > r0 else 0,
                                 seq=struct.unpack('!I', written[0][12:16])[0] if written else (seq0 + 1 if seq0 is not None else 1),
                                 reconnected=len(s.smsc.conns) > nconn,
                                 ended=(repr(s.start_task.exception()) if done and not s.start_task.cancelled() else None) if done else None,
@@ -210,6 +221,9 @@ def predicate(o, m=None):
         return 'the message queued after it was not transmitted'
     if o['errors'] and len(o['errors']) > 1:
         return 'send_error called %d times for one message' % len(o['errors'])
+    if o['errors'] and 'log' in o and (o['errors'][0][2] != 'SubmitSm' or o['errors'][0][3] != o['log']):
+        return 'send_error was handed %s %r, the message that failed is SubmitSm %r' % (
+            o['errors'][0][2], o['errors'][0][3], o['log'])
     if not o['errors'] and not o['written']:
         return 'the message was neither transmitted nor handed to send_error'
     if o['reconnected'] and o['errors']:
